@@ -651,6 +651,19 @@ func stdPrograms() []Prog {
 	mk("bitslice_2_0.c46", "quick", Step{Op: "bitslice", Params: []int{2, 0}}, []string{"c46"}, 2)
 	mk("bitslice_2_5.c5", "quick", Step{Op: "bitslice", Params: []int{2, 5}}, []string{"c5"}, 2)
 	mk("bitslice_1_3.lin", "quick", Step{Op: "bitslice", Params: []int{1, 3}}, []string{"lin"}, 2)
+	// larger multiplexers (added after seed C14-4): secret selector, constant inputs 1..n, for every shape of the
+	// recursive split (powers of two, a power of two plus a power of two, plus a non-power of two)
+	for _, n := range []int{6, 7, 8, 9, 10, 11, 12, 13} {
+		args := []string{"sec"}
+		for i := 1; i <= n; i++ {
+			args = append(args, fmt.Sprintf("c%d", i))
+		}
+		t := "quick"
+		if n == 8 || n == 10 || n == 12 {
+			t = "thorough"
+		}
+		mk(fmt.Sprintf("mux_%dc", n), t, Step{Op: "mux"}, args, 1)
+	}
 	mk("mux_3c", "quick", Step{Op: "mux"}, []string{"sec", "c5", "sec", "c46"}, 1)
 	mk("mux_csel", "quick", Step{Op: "mux"}, []string{"c2", "sec", "sec", "sec"}, 1)
 	mk("map_2ckeys", "quick", Step{Op: "map", Params: []int{2}}, []string{"sec", "c5", "c46", "sec", "sec"}, 1)
